@@ -36,6 +36,10 @@ PROPS: Dict[str, Dict[str, Any]] = {
                          "C02_sync_guard", "C02_equals_accept_iff", "C02_equals_type_err", "C02_none"],
             "stream": "core", "opts": {"salt": "c02", "gen": ["streams", "gen_scalar_case"]},
             "quick_n": 8000, "thorough_n": 150000, "fields": ["out", "trace"]},
+    "C16": {"theorems": ["C16_decimal", "C16_uuid", "C16_date", "C16_datetime", "C16_tuple", "C16_never",
+                         "C16_subclass_rejected", "C16_validator", "C16_compat", "C16_roundtrip"],
+            "stream": "core", "opts": {"salt": "c16", "gen": ["streams", "gen_coercion_case"], "special_rate": 0.3},
+            "quick_n": 8000, "thorough_n": 200000, "fields": ["out"]},
     "C05": {"theorems": ["C05_union_first", "C05_union_all_errs", "C05_union_valid_inv", "C05_union_invalid_inv",
                          "C05_union_run", "C05_optional_run", "C05_optional_none", "C05_optional_inner_valid",
                          "C05_optional_both_errs", "C05_maybe_nothing", "C05_maybe_just_valid",
@@ -66,6 +70,21 @@ PROPS["C20"] = {"theorems": ["Store.get_ok", "Cache.step_ok", "C20_transparent",
                         "CacheValidatorBase subclass, over a pool of 1-7 inputs with repeats, identity- and typed-equality-"
                         "keyed stores, wrapped validators of every kind; distinct by hash of (validator, pool, history, key); "
                         "non-trivial when the history has at least one hit"}
+
+
+def _run_pred(pid: str, tier: str, seed: int, spec: dict, scale: float = 1.0, salt: str = "") -> dict:
+    from . import pred_stream
+    return pred_stream.run(pid, tier, seed, spec, scale, salt)
+
+
+PROPS["C15"] = {"theorems": ["C15_min_int", "C15_max_int", "C15_multipleOf_int", "C15_min_date", "C15_lengths",
+                             "C15_item_counts", "C15_key_counts", "isPrefix_iff", "C15_startsWith", "C15_endsWith",
+                             "stripWith_nil_iff", "C15_notBlank", "dropWhile_idem", "C15_upper_idem", "C15_lower_idem",
+                             "C15_processors", "uniqueLoop_spec", "C15_uniqueItems"],
+                "run": _run_pred,
+                "rule": "the bounded (predicate/processor, parameter, argument) plane of the property's quantifier is "
+                        "enumerated exhaustively (every point is a distinct non-trivial case: a real __call__ compared with "
+                        "the model's PredK.call/ProcK.call, result type and argument snapshot checked), plus sampled large values"}
 
 
 def run_core(pid: str, tier: str, seed: int, spec: dict, scale: float = 1.0, salt: str = "") -> dict:
